@@ -24,9 +24,10 @@ ASSUMPTIONS = [
     "measured by the harness (coverage.noise_margin) and not proved",
     "cmux_selects (C04), key-switch / sample-extract / trace / pack / rotate (C02, C03), decryption (C01), blind rotation "
     "(C14) and GGLWE->GGSW expansion (C04) enter C15_word_op_correct / C15_circuit_bootstrap_cells as named hypotheses",
-    "C15_circuit_bootstrap_cells is conditional on cbt_rows_ok (the ideal rows decode to the message), which is checked by "
-    "vm_compute at the test parameter set only (C15_cbt_rows_ok_partial; C15_cbt_rows_ok_full is not proved and its "
-    "exponent-mode half is refuted)",
+    "C15_circuit_bootstrap_cells is conditional on cbt_rows_ok (the ideal rows decode to the message): proved for ALL "
+    "parameter sets in constant mode (C15_cbt_rows_ok_constant; the mode prepare uses), by vm_compute at the test parameter "
+    "set in exponent mode (C15_cbt_rows_ok_partial, both branches of post_process); C15_cbt_rows_ok_full (exponent mode, "
+    "general parameters) is stated, not proved",
     "GLWEBlindRetriever and glwe_blind_retrieval_statefull_rev, glwe_blind_rotation: model + correspondence only "
     "(C15_retriever_index_full stated, not proved)",
     "release-mode integer semantics",
@@ -60,23 +61,8 @@ def _bitlen(x):
 
 
 def classify(record):
-    """key of the known-finding class of a failing record, else None"""
-    parts = record.split("#")
-    if len(parts) < 2:
-        return None
-    code = parts[0].strip()
-    ps = [_unhex(x) for x in parts[1].split()]
-    if code == "15061" and len(ps) >= 9:
-        logn, ld, lgo, dnum = ps[1], ps[4], ps[5], ps[7]
-        n = 1 << logn
-        alpha = 1 if dnum <= 1 else 1 << _bitlen(dnum - 1)
-        f_len = (1 << ld) * alpha
-        step = (n + f_len // 2) // f_len
-        gap = 2 * (step >> 1)
-        log_gap_in = _bitlen(gap * alpha - 1)
-        # post_process takes its trace-only branch; with alpha >= 2 another gadget row aliases into the row
-        if lgo == log_gap_in and dnum >= 2:
-            return "C15:cbt.exponent.trace_branch.row_alias"
+    """key of the known-finding class of a failing record, else None.
+    (C15:cbt.exponent.trace_branch.row_alias was repaired by /repo commit b689fc8; no known class is left.)"""
     return None
 
 
